@@ -11,7 +11,7 @@ LEVEL = "exploration"
 EXHAUSTIVE = {"quick": True, "thorough": True}
 EXHAUSTIVE_SUBSPACES = {
     "quick": ["the 24 enumerated gates", "all 24x24 products", "all words over {I,H,P,X,Y,Z} of length <= 5",
-              "all 24 wrappers x {e,p} x {dm,stabilizer} x 7 input preparations"],
+              "all 24 wrappers x {e,p} x {dm,stabilizer} x 7 input preparations x {default noise, one wrapper-level noise object}"],
     "thorough": ["the 24 enumerated gates", "all 24x24 products", "all words over {I,H,P,X,Y,Z} of length <= 7",
                  "all 24 wrappers x {e,p} x {dm,stabilizer} x 7 input preparations"],
 }
@@ -70,7 +70,8 @@ def shards(tier, seed):
 def floors(tier):
     L = 5 if tier == "quick" else 7
     return {"words:checked": sum(6 ** k for k in range(0, L + 1)) - 1, "group:products": 576, "wrappers:compiles": 24 * 4 * 7,
-            "nonclifford:rejected": 400, "group:entries": 24}
+            "nonclifford:rejected": 400, "group:entries": 24, "nonclifford:small_rotation": 100,
+            "wrappers:with_single_noise_object": 24 * 4 * 7, "wrappers:with_list_noise_object": 24 * 4 * 2}
 
 
 def _lib():
@@ -90,7 +91,7 @@ def replay(case, ctx):
     if case["kind"] == "word":
         check_word(case["word"], ctx, _enum_names(ctx))
     elif case["kind"] == "wrapper":
-        check_wrapper(case["word"], case["reg"], case["backend"], case["prep"], ctx)
+        check_wrapper(case["word"], case["reg"], case["backend"], case["prep"], ctx, case.get("noise_mode"))
     elif case["kind"] == "group":
         run_group({"seed": 0}, ctx)
     elif case["kind"] == "nonclifford":
@@ -213,10 +214,15 @@ def run_noncliff(spec, ctx):
         elif i % 3 == 0:
             U = dense.random_unitary(rng, 2)
         elif i % 3 == 1:
-            # a Clifford perturbed by a small rotation
-            a = rng.uniform(1e-3, 0.3)
-            R = np.array([[np.cos(a), -np.sin(a)], [np.sin(a), np.cos(a)]])
+            # a Clifford perturbed by a small rotation (angle log-uniform in [1e-4, 0.3]) about a random axis; graphiq's own
+            # equality tolerance (allclose, 1e-5 relative) is far below the smallest of these
+            a = float(np.exp(rng.uniform(np.log(1e-4), np.log(0.3))))
+            ax = rng.normal(size=3)
+            ax = ax / np.linalg.norm(ax)
+            G = ax[0] * dense.X + ax[1] * dense.Y + ax[2] * dense.Z
+            R = np.cos(a / 2) * np.eye(2) - 1j * np.sin(a / 2) * G
             U = mat_of([ALPHA[int(rng.integers(6))], ALPHA[int(rng.integers(6))]]) @ R
+            ctx.count("nonclifford:small_rotation")
         else:
             U = mat_of([ALPHA[int(rng.integers(6))]]) * (1 + rng.uniform(0.01, 0.5))  # not unitary
         if is_clifford(U) and np.allclose(U @ U.conj().T, np.eye(2)):
@@ -233,7 +239,7 @@ def run_noncliff(spec, ctx):
                           key="noncliff_exc")
 
 
-def check_wrapper(word, reg, backend, prep_i, ctx):
+def check_wrapper(word, reg, backend, prep_i, ctx, noise_mode=None):
     """one-wrapper circuit on register type `reg` (2 photons + 2 emitters so that index maps matter), compiled with
     `backend`, against (matrix product of the list) applied to the prepared input"""
     from .. import gq
@@ -259,24 +265,42 @@ def check_wrapper(word, reg, backend, prep_i, ctx):
             c.add(gate_cls[g](register=tq, reg_type=reg))
             rho = dense.gate(rho, g, [q], n)
     classes = [getattr(ops, w) for w in word]
-    c.add(ops.OneQubitGateWrapper(classes, register=tq, reg_type=reg))
+    import graphiq.noise.noise_models as nm
+    noise_sim = False
+    if noise_mode == "single":
+        # one noise model for the whole wrapper (unwrap() then adds a noisy Identity); its strength is zero / it is ignored
+        noise = [nm.DepolarizingNoise(0.0), nm.PauliError("I"), nm.PhotonLoss(0.0), nm.DepolarizingNoise(0.3)][prep_i % 4]
+        noise.noise_parameters["After gate"] = bool(prep_i % 2)
+        noise_sim = prep_i % 4 != 3          # a non-zero strength is only allowed with noise simulation switched off
+        c.add(ops.OneQubitGateWrapper(classes, register=tq, reg_type=reg, noise=noise))
+    elif noise_mode == "list":
+        c.add(ops.OneQubitGateWrapper(classes, register=tq, reg_type=reg, noise=[nm.NoNoise() if k % 2 else nm.PauliError("I") for k in range(len(classes))]))
+        noise_sim = bool(prep_i % 2)
+    else:
+        c.add(ops.OneQubitGateWrapper(classes, register=tq, reg_type=reg))
     U = mat_of(word)
     ref = dense.conj_apply(rho, U, [q], n)
     comp = m["DensityMatrixCompiler"]() if backend == "dm" else m["StabilizerCompiler"]()
     comp.measurement_determinism = 1
+    comp.noise_simulation = noise_sim
     ctx.count("wrappers:compiles")
-    ctx.case(("wrap", tuple(word), reg, backend, prep_i), True,
+    if noise_mode:
+        ctx.count("wrappers:with_" + noise_mode + "_noise_object")
+    ctx.case(("wrap", tuple(word), reg, backend, prep_i, noise_mode), True,
              {"wrapper": word, "reg": reg, "backend": backend, "prep": prep} if ctx.evaluations % 150 == 0 else None)
-    case = {"kind": "wrapper", "word": list(word), "reg": reg, "backend": backend, "prep": prep_i}
+    case = {"kind": "wrapper", "word": list(word), "reg": reg, "backend": backend, "prep": prep_i, "noise_mode": noise_mode}
     try:
         st = comp.compile(c)
     except Exception as e:
         ctx.violation("wrapper_compile_raises", case, {"exception": repr(e)[:300]}, key="wrapper_exc")
         return
-    if backend == "dm":
-        got = np.array(st.rep_data.data)
+    rep = st.rep_data
+    if type(rep).__name__ == "DensityMatrix":
+        got = np.array(rep.data)
+    elif type(rep).__name__ == "MixedStabilizer":
+        got = sum(p_ * dense.projector_of_group(gq.clifford_stab_ptab(t_)) for p_, t_ in rep.mixture)
     else:
-        got = dense.projector_of_group(gq.clifford_stab_ptab(st.rep_data.data))
+        got = dense.projector_of_group(gq.clifford_stab_ptab(rep.data))
     if not np.allclose(got, ref, atol=1e-8):
         ctx.violation("wrapper_order_or_action", case,
                       {"max_abs_diff": float(np.max(np.abs(got - ref))), "word": word, "meaning": "matrix product, last listed first"},
@@ -288,6 +312,9 @@ def run_wrappers(spec, ctx):
     for w in names:
         for p in range(len(PREPS)):
             check_wrapper(list(w), spec["reg"], spec["backend"], p, ctx)
+            check_wrapper(list(w), spec["reg"], spec["backend"], p, ctx, noise_mode="single")
+            if p < 2:
+                check_wrapper(list(w), spec["reg"], spec["backend"], p, ctx, noise_mode="list")
     rng = np.random.default_rng([spec["seed"], 22, sum(map(ord, spec["reg"] + spec["backend"]))])
     alpha = ALPHA + ["PhaseDagger"]
     for _ in range(spec["extra"]):
